@@ -242,8 +242,23 @@ def run(ck: Check, prog: Program) -> None:
         h = heads[0]
         other = merge.params[1].arg
         tg = h.ast.target
-        if norm(h.ast.iter) == f'{other}.items()' and isinstance(tg, ast.Tuple) and len(tg.elts) == 2:
+        nv = mv = None
+        if norm(h.ast.iter) in (f'{other}.items()', f'list({other}.items())', f'tuple({other}.items())') and isinstance(tg, ast.Tuple) and len(tg.elts) == 2:
             nv, mv = dotted(tg.elts[0]), dotted(tg.elts[1])
+        elif norm(h.ast.iter) in (f'{other}.values()', f'list({other}.values())', f'tuple({other}.values())') and isinstance(tg, ast.Name):
+            # the key a method is stored under is its own name (see _add_method), so `for method in other.values()` with
+            # method.name as the name is the same enumeration
+            mv = tg.id
+            nv = f'{mv}.name'
+        if nv is not None and mv is not None:
+            # the methods of the other registry are shared with it: they are copied, never modified
+            for n_ in cfg.stmt_nodes():
+                for x_ in ast.walk(n_.ast) if n_.ast is not None and n_.kind == 'stmt' else []:
+                    if isinstance(x_, ast.Attribute) and isinstance(x_.ctx, (ast.Store, ast.Del)) and dotted(x_.value) == mv:
+                        ck.finding('NAME-COMPOSE', merge.qualname, f'source method modified in place: {norm(n_.ast)[:50]}', merge.module.rel, n_.line,
+                                   f'`{norm(n_.ast)[:80]}` modifies a Method object that still belongs to the other registry (its key there no longer '
+                                   f'matches its name, and a second merge of that registry starts from the already prefixed name): merge must '
+                                   f'store a copy under the new name')
             stores = [(n, c) for n in cfg.stmt_nodes() for c in calls_in(n) if dotted(c.func) == 'self._add_method']
             why = 'the stored value is not a copy of the method under a new name'
             if len(stores) == 1 and stores[0][1].args and isinstance(stores[0][1].args[0], ast.Call):
@@ -383,6 +398,15 @@ def run(ck: Check, prog: Program) -> None:
     if not okp and 'not recognised' in why:
         raise AnalysisError(f'ViewMixin.__methods__: loop-and-yield form not recognised')
     ck.ob('VIEW-PUBLIC', '__methods__ yields exactly the callables whose name does not start with an underscore', okp, sample={'form': why})
+    # ... every time it is asked: the member enumeration is a fresh iterator per registration, never a memoised (shared, one-shot) one
+    if ms is not None:
+        from ..effects import memoised_one_shot
+        shared = memoised_one_shot(prog, ms)
+        ck.ob('VIEW-PUBLIC', '__methods__ hands a fresh enumeration to every registration (not a cached iterator)', shared is None)
+        if shared:
+            ck.finding('VIEW-PUBLIC', ms.qualname, 'member enumeration is a cached one-shot iterator', ms.module.rel, ms.node.lineno,
+                       shared + ': the second registration of the same view class (another registry, prefix or dispatcher) finds it '
+                       'exhausted and registers nothing')
     if not okp:
         ck.finding('VIEW-PUBLIC', VIEW + '.__methods__', 'public-callable filter', vmix.module.rel, ms.node.lineno if ms else vmix.node.lineno,
                    f'class-based views must expose exactly their public callables (names not starting with "_", callable): {why}')
@@ -436,6 +460,12 @@ def run(ck: Check, prog: Program) -> None:
 
 
 MUTANTS = [
+    dict(name='memoised-view-member-enumeration', file='pjrpc/server/dispatcher.py',
+         find='    @classmethod\n    def __methods__(cls)', replace='    @classmethod\n    @ft.lru_cache(maxsize=None)\n    def __methods__(cls)',
+         expect='VIEW-PUBLIC'),
+    dict(name='merge-renames-the-shared-method', file='pjrpc/server/dispatcher.py',
+         find='            self._add_method(method.copy(name=name))', replace='            method.name = name\n            self._add_method(method)',
+         expect='NAME-COMPOSE'),
     dict(name='wrong-join-order', file='pjrpc/server/dispatcher.py', find="'.'.join(filter(None, (self._prefix, prefix, method.__name__)))",
          replace="'.'.join(filter(None, (prefix, self._prefix, method.__name__)))", expect='NAME-COMPOSE'),
     dict(name='merge-prefix-twice', file='pjrpc/server/dispatcher.py', find="                name = f'{self._prefix}.{name}'",
